@@ -157,6 +157,8 @@ HARNESS_BEGIN
     g_ssl.hsState = MODE_HSSTATE;
     g_ssl.flags = MODE_SERVER ? (in.flags | SSL_FLAGS_SERVER) : (in.flags & ~SSL_FLAGS_SERVER);
     g_ssl.err = SSL_ALERT_NONE;
+    /* a TLS (not DTLS) session never stores a HelloVerifyRequest cookie (zeroed at creation, only the DTLS arm writes it) */
+    g_ssl.haveCookie = 0; g_ssl.cookie = NULL; g_ssl.cookieLen = 0;
     g_ssl.hsPool = NULL;
     g_sid.sessionTicket = NULL; g_sid.sessionTicketLen = 0; g_sid.pool = NULL;
     g_sid.sessionTicketState = in.ticketState;
